@@ -72,6 +72,9 @@ func (r *Runner) daemonStop() (res string, clean bool) {
 	if !r.lsUp || !ok {
 		return "skip", false
 	}
+	// a clean shutdown acknowledges everything - if the DB is initialised: an enabled DB whose first sync has not happened yet
+	// has nothing open and Close has nothing to flush (same rule as LsClose in the sequential driver)
+	inited := r.ls != nil && r.ls.SQLDB() != nil && r.ls.IsOpen()
 	ch := make(chan error, 1)
 	go func() {
 		ctx, cancel := context.WithTimeout(r.ctx, 20*time.Second)
@@ -81,7 +84,7 @@ func (r *Runner) daemonStop() (res string, clean bool) {
 	select {
 	case err := <-ch:
 		r.lsUp = false
-		return errClass(err), err == nil
+		return errClass(err), err == nil && inited
 	case <-time.After(90 * time.Second):
 		return "hang", false
 	}
